@@ -96,6 +96,9 @@ func NewPrivateKeyFromXML(xmlInput string, demo bool) (*PrivateKey, error) {
 	if err != nil {
 		return nil, err
 	}
+	if privk.P == nil || privk.Q == nil || privk.PPrime == nil || privk.QPrime == nil {
+		return nil, errors.New("private key is missing one of the elements p, q, pPrime, qPrime")
+	}
 
 	if !demo {
 		// Do some sanity checks on the key data
@@ -277,6 +280,9 @@ func NewPublicKeyFromBytes(bts []byte) (*PublicKey, error) {
 	if err != nil {
 		return nil, err
 	}
+	if pubk.N == nil || pubk.Z == nil || pubk.S == nil {
+		return nil, errors.New("public key is missing one of the elements n, Z, S")
+	}
 	keylength := pubk.N.BitLen()
 	if sysparam, ok := DefaultSystemParameters[keylength]; ok {
 		pubk.Params = sysparam
@@ -300,22 +306,15 @@ func NewPublicKeyFromFile(filename string) (*PublicKey, error) {
 		return nil, err
 	}
 	defer common.Close(f)
-	pubk := &PublicKey{}
 
 	b, err := io.ReadAll(f)
 	if err != nil {
 		return nil, err
 	}
 
-	err = xml.Unmarshal(b, pubk)
-	if err != nil {
-		return nil, err
-	}
-	pubk.Params = DefaultSystemParameters[pubk.N.BitLen()]
-	if err = pubk.parseRevocationKey(); err != nil {
-		return nil, err
-	}
-	return pubk, nil
+	// Apply the same sanity checks (mandatory elements, supported key length) as for keys
+	// that do not come from a file.
+	return NewPublicKeyFromBytes(b)
 }
 
 func (pubk *PublicKey) parseRevocationKey() error {
